@@ -584,6 +584,9 @@ class Ex:
             return arith(self.cfg, op, a, b)
         if isinstance(op, ast.Add):
             if isinstance(a, VStr) and isinstance(b, VStr):
+                pa = getattr(a, "parts", None)
+                if pa is not None and is_conc(b.v) and b.v.startswith(".") and "." not in b.v[1:]:
+                    return self.lib.make_key(pa + [VStr(b.v[1:])], getattr(a, "sep", "."))
                 return VStr(concat_str([a.v, b.v]))
             if isinstance(a, VTuple) and isinstance(b, VTuple):
                 return VTuple(a.items + b.items)
@@ -826,6 +829,8 @@ class Ex:
             return self.lib.sym_setattr(self, obj, name, val, fr)
         if isinstance(obj, VOpaque):
             return self.lib.opaque_setattr(self, obj, name, val, fr)
+        if isinstance(obj, VNone):
+            self.throw("AttributeError", f"'NoneType' object has no attribute {name!r}")
         raise Unsupported(f"setattr on {obj!r}.{name}")
 
     def sym_unwrap(self, desc, val):
